@@ -19,6 +19,10 @@ package main
 //   C03 te    <aff|proj|ext>         <curve> <q> <a> <d> <order> <base> <e> <P> <s>
 //   C03 tex   … same as te, specification value only
 //   C03 split <r> <lam> <s>          PrecomputeLattice + SplitScalar
+//   C03 alias <pat> <sm|smx|joint|jointx|te|tex line>   the same call with receiver / point operands / scalars SHARED as <pat> says
+//                                    (c03AliasOK); also checks that operands which are not the receiver are unchanged after the call.
+//                                    The model is by value: it answers <line> and ignores <pat> (Props/C03: C03_alias_by_value).
+//                                    <pat> = d | dirty | rp | rq | pq | rpq, suffix +st = the two scalars are one *big.Int
 // field = fp:<p> | fp2:<p>:<β> | fp4:<p>:<β>:<γ0>,<γ1>; elements = comma separated hex coordinates; points = inf | x;y;
 // P = [e]G (e known so that the model computes the expected value in the exponent); scalars signed hex.
 
@@ -41,6 +45,9 @@ type c03Group struct {
 	sm             func(variant, P string, s *big.Int) string
 	joint          func(variant, P, Q string, s1, s2 *big.Int) string
 	batch          func(P string, ss []*big.Int) string // nil when the package has none
+	// the same entry points with the objects shared as the alias pattern says (op `alias`)
+	smA    func(variant, al, P string, s *big.Int) string
+	jointA func(variant, al string, st bool, P, Q string, s1, s2 *big.Int) string
 }
 
 type c03TE struct {
@@ -49,6 +56,7 @@ type c03TE struct {
 	n                 *big.Int
 	naive             func(e *big.Int) string
 	sm                func(variant, P string, s *big.Int) string
+	smA               func(variant, al, P string, s *big.Int) string
 }
 
 var c03Groups = map[string]*c03Group{}
@@ -148,6 +156,14 @@ func execC03(a []string) string {
 	if len(a) == 0 {
 		return "bad-op"
 	}
+	al, st := "", false
+	if a[0] == "alias" {
+		if len(a) < 2 || !c03AliasOK(a[1], a[2:]) {
+			return "bad-op"
+		}
+		al, st = c03AliasSplit(a[1])
+		a = a[2:]
+	}
 	switch a[0] {
 	case "split":
 		if len(a) != 4 {
@@ -176,6 +192,9 @@ func execC03(a []string) string {
 		}
 		if t.naive(parseBig(a[8])) != a[9] {
 			return "bad-point"
+		}
+		if al != "" {
+			return t.smA(a[1], al, a[9], parseBig(a[10]))
 		}
 		return t.sm(a[1], a[9], parseBig(a[10]))
 	}
@@ -213,6 +232,9 @@ func execC03(a []string) string {
 		if strings.HasPrefix(a[1], "base") && rest[2] != "1" {
 			return "bad-op"
 		}
+		if al != "" {
+			return g.smA(a[1], al, rest[3], parseBig(rest[4]))
+		}
 		return g.sm(a[1], rest[3], parseBig(rest[4]))
 	case "joint", "jointbig", "jointx":
 		if len(rest) != 6 {
@@ -226,6 +248,9 @@ func execC03(a []string) string {
 		}
 		if a[1] == "base" && rest[0] != "1" {
 			return "bad-op"
+		}
+		if al != "" {
+			return g.jointA(a[1], al, st, rest[1], rest[3], parseBig(rest[4]), parseBig(rest[5]))
 		}
 		return g.joint(a[1], rest[1], rest[3], parseBig(rest[4]), parseBig(rest[5]))
 	case "batch":
@@ -250,6 +275,53 @@ func execC03(a []string) string {
 		return g.batchPow(rest)
 	}
 	return "bad-op"
+}
+
+// ---- aliasing patterns (mirror of Model/ScalarMul.lean aliasSplit / aliasOK: purely syntactic) ----------------------------
+
+func c03AliasSplit(pat string) (string, bool) {
+	for _, p := range []string{"d", "dirty", "rp", "rq", "pq", "rpq"} {
+		if pat == p+"+st" {
+			return p, true
+		}
+	}
+	return pat, false
+}
+
+func c03In(x string, l ...string) bool {
+	for _, y := range l {
+		if x == y {
+			return true
+		}
+	}
+	return false
+}
+
+func c03AliasOK(pat string, line []string) bool {
+	pp, st := c03AliasSplit(pat)
+	if len(line) < 2 {
+		return false
+	}
+	op, v, rest := line[0], line[1], line[2:]
+	switch op {
+	case "sm", "smx":
+		return !st && ((c03In(v, "aff", "jac") && c03In(pp, "d", "dirty", "rp")) || (c03In(v, "base", "basejac") && c03In(pp, "d", "dirty")))
+	case "te", "tex":
+		return !st && c03In(v, "aff", "proj", "ext") && c03In(pp, "d", "dirty", "rp")
+	case "joint", "jointx":
+		if len(rest) != 13 {
+			return false
+		}
+		r := rest[7:]
+		if st && r[4] != r[5] {
+			return false
+		}
+		if v == "gen" {
+			return c03In(pp, "d", "dirty", "rp", "rq") || (c03In(pp, "pq", "rpq") && r[0] == r[2] && r[1] == r[3])
+		}
+		return v == "base" && c03In(pp, "d", "dirty")
+	}
+	return false
 }
 
 // ---- generation ----------------------------------------------------------------------------------------------
@@ -720,6 +792,78 @@ func genC03(g *gen) {
 				}
 			}
 		}
+		// class (e): ALIASING. Every entry point again with every sharing pattern between receiver, point operands and scalars
+		// that its signature permits (`alias <pat>`; the adapters degrade a pattern the types exclude to "receiver holds the
+		// operand's value"), and with a receiver that holds another point before the call. Scalars: full-length in the eyes of
+		// the Go code (±(r − t), t < 2^16: short specification value), on cheap groups also random of the order's length.
+		{
+			asc := func() *big.Int {
+				if cost <= 4 && g.rng.intn(3) == 0 {
+					return g.rng.signed(g.rng.bigExact(n - g.rng.intn(2)))
+				}
+				t := big.NewInt(int64(1 + g.rng.intn(1<<16)))
+				if g.rng.intn(5) == 0 {
+					return g.rng.signed(t)
+				}
+				return g.rng.signed(t.Sub(gr.r, t))
+			}
+			reps := g.budget(1, 4)
+			for rep := 0; rep < reps; rep++ {
+				for _, v := range variants {
+					if v == "jacalias" { // = alias rp … jac
+						continue
+					}
+					pats := []string{"dirty"}
+					if v[:2] != "ba" {
+						pats = append(pats, "rp")
+					}
+					if g.thorough() || g.rng.intn(4) == 0 {
+						pats = append(pats, "d")
+					}
+					for _, pat := range pats {
+						P := pts[1]
+						if v[:2] != "ba" {
+							switch g.rng.intn(6) {
+							case 0:
+								P = pts[0]
+							case 1, 2, 3:
+								P = psmall
+							}
+						}
+						g.emit("C03 alias %s smx %s %s %s %s %s %s %s", pat, v, gr.params(), gr.w, gr.lam, P.e, P.tok, hexBig(asc()))
+					}
+				}
+				if gr.joint == nil {
+					continue
+				}
+				for _, jv := range []string{"gen", "base"} {
+					pats := []string{"dirty", "rp", "rq", "pq", "rpq", "d"}
+					if jv == "base" {
+						pats = []string{"dirty", "d"}
+					}
+					stAt := g.rng.intn(2)
+					for pi, pat := range pats {
+						st := pat == "d" || (g.thorough() && rep%2 == 1) || pi%2 == stAt
+						P, Q := psmall, pts[1]
+						if g.rng.coin() {
+							P, Q = Q, P
+						}
+						if jv == "base" {
+							P = pts[1]
+						}
+						if pat == "pq" || pat == "rpq" {
+							Q = P
+						}
+						s1, s2 := asc(), asc()
+						if st {
+							s2 = s1
+							pat += "+st"
+						}
+						g.emit("C03 alias %s jointx %s %s %s %s %s %s %s %s", pat, jv, gr.params(), P.e, P.tok, Q.e, Q.tok, hexBig(s1), hexBig(s2))
+					}
+				}
+			}
+		}
 		for i := 0; i < nj; i++ {
 			s1 := scal[g.rng.intn(len(scal))]
 			s2 := scal[g.rng.intn(len(scal))]
@@ -955,21 +1099,56 @@ func genC03(g *gen) {
 			}
 			emitFar("tex", "ext", pts[0], c03FarCheap(g.rng, t.n, zones.C[g.rng.intn(len(zones.C))], true))
 		}
+		// class (e): aliasing (receiver = operand, receiver holding another point) for the three coordinate systems
+		{
+			psmall := mk(big.NewInt(int64(2 + g.rng.intn(254))))
+			for rep := 0; rep < g.budget(1, 4); rep++ {
+				for _, v := range []string{"aff", "proj", "ext"} {
+					pats := []string{"dirty", "rp"}
+					if g.thorough() || g.rng.intn(3) == 0 {
+						pats = append(pats, "d")
+					}
+					for _, pat := range pats {
+						P := []pt{pts[1], psmall, psmall, pts[0]}[g.rng.intn(4)]
+						tt := big.NewInt(int64(1 + g.rng.intn(1<<16)))
+						sc := g.rng.signed(new(big.Int).Sub(t.n, tt))
+						switch g.rng.intn(4) {
+						case 0:
+							sc = g.rng.signed(tt)
+						case 1:
+							sc = g.rng.signed(g.rng.bigExact(n - g.rng.intn(2)))
+						}
+						g.emit("C03 alias %s tex %s %s %s %s %s", pat, v, t.params(), P.e, P.tok, hexBig(sc))
+					}
+				}
+			}
+		}
 	}
 	// malformed stream: both sides must classify alike
 	if gr, ok := c03Groups["bn254/g1"]; ok {
 		G := gr.naive(one)
 		P5 := gr.naive(big.NewInt(5))
-		g.emit("C03 sm aff %s %s %s 4 %s 7", gr.params(), gr.w, gr.lam, P5)   // P ≠ [e]G
-		g.emit("C03 sm zzz %s %s %s 5 %s 7", gr.params(), gr.w, gr.lam, P5)   // unknown variant
-		g.emit("C03 sm base %s %s %s 5 %s 7", gr.params(), gr.w, gr.lam, P5)  // base variant with P ≠ G
-		g.emit("C03 sm aff %s %s %s 5 %s", gr.params(), gr.w, gr.lam, P5)     // arity
-		g.emit("C03 frob aff %s %s %s 5 %s 7", gr.params(), gr.w, gr.lam, P5) // unknown op
-		g.emit("C03 joint base %s 5 %s 1 %s 2 3", gr.params(), P5, G)         // base variant with P ≠ G
-		g.emit("C03 joint gen %s 5 %s 2 %s 2 3", gr.params(), P5, G)          // Q ≠ [e2]G
-		g.emit("C03 batch - %s 5 %s 1,%s", gr.params(), P5, hexBig(gr.r))     // scalar not reduced
-		g.emit("C03 batch - %s 5 %s", gr.params(), P5)                        // arity
-		g.emit("C03 sm aff %s %s %s 5 inf 7", gr.params(), gr.w, gr.lam)      // P = O but e = 5
+		g.emit("C03 sm aff %s %s %s 4 %s 7", gr.params(), gr.w, gr.lam, P5)          // P ≠ [e]G
+		g.emit("C03 sm zzz %s %s %s 5 %s 7", gr.params(), gr.w, gr.lam, P5)          // unknown variant
+		g.emit("C03 sm base %s %s %s 5 %s 7", gr.params(), gr.w, gr.lam, P5)         // base variant with P ≠ G
+		g.emit("C03 sm aff %s %s %s 5 %s", gr.params(), gr.w, gr.lam, P5)            // arity
+		g.emit("C03 frob aff %s %s %s 5 %s 7", gr.params(), gr.w, gr.lam, P5)        // unknown op
+		g.emit("C03 joint base %s 5 %s 1 %s 2 3", gr.params(), P5, G)                // base variant with P ≠ G
+		g.emit("C03 joint gen %s 5 %s 2 %s 2 3", gr.params(), P5, G)                 // Q ≠ [e2]G
+		g.emit("C03 batch - %s 5 %s 1,%s", gr.params(), P5, hexBig(gr.r))            // scalar not reduced
+		g.emit("C03 batch - %s 5 %s", gr.params(), P5)                               // arity
+		g.emit("C03 sm aff %s %s %s 5 inf 7", gr.params(), gr.w, gr.lam)             // P = O but e = 5
+		g.emit("C03 alias rq sm aff %s %s %s 5 %s 7", gr.params(), gr.w, gr.lam, P5) // pattern the op does not admit
+		g.emit("C03 alias zz sm aff %s %s %s 5 %s 7", gr.params(), gr.w, gr.lam, P5) // unknown pattern
+		g.emit("C03 alias rp sm base %s %s %s 1 %s 7", gr.params(), gr.w, gr.lam, G) // no point operand to share
+		g.emit("C03 alias pq joint gen %s 5 %s 1 %s 2 3", gr.params(), P5, G)        // one object, two values
+		g.emit("C03 alias d+st joint gen %s 5 %s 1 %s 2 3", gr.params(), P5, G)      // one scalar object, two values
+		g.emit("C03 alias rp joint base %s 1 %s 5 %s 2 3", gr.params(), G, P5)       // base variant: receiver cannot be the fixed base
+		g.emit("C03 alias rp jointbig gen %s 5 %s 1 %s 2 3", gr.params(), P5, G)     // op kind without alias form
+		g.emit("C03 alias d batch - %s 5 %s 1,2", gr.params(), P5)                   // no result object to share
+		g.emit("C03 alias rp sm aff %s %s %s 4 %s 7", gr.params(), gr.w, gr.lam, P5) // admissible pattern, P ≠ [e]G
+		g.emit("C03 alias rp")
+		g.emit("C03 alias")
 	}
 	if t, ok := c03TEs["bn254"]; ok {
 		g.emit("C03 te aff %s 2 %s 3", t.params(), t.naive(big.NewInt(3)))
